@@ -392,6 +392,7 @@ RULES = {
     "C14": "three-test scenarios in which the test at position 0/1/2 overruns a 1-second limit after delivering 0, 1 (a failure) or 2 results, armed by CGREEN_PER_TEST_TIMEOUT or by die_in(), sleeping or blocked in pause(), in the forked, CGREEN_NO_FORK and run_single_test modes under several reporters; scenarios in which nobody overruns; 26 values of the variable (empty, zero, negative, non-numeric, trailing characters, signs, blanks, leading zeros, out of int range, valid); non-trivial = every run; distinct by (scenario, reporter, mode, environment)",
     "C15": "pairs of finite doubles: every 23rd (thorough: every) decade 10^k from 1e-320 to 1e308 with the power of ten itself, its two neighbours on each side and 0.9999999*10^k, each paired with itself, its successor, values at relative distance c*10^-n for c in {0.09,0.11,0.9,1.1,9,11} and n in {1,2,8,15} (thorough 1..15), the negated pair, a tiny opposite-sign value and its negation; 21x21 special values (signed zeros, subnormals, DBL_MIN, DBL_MAX, values around the absolute tolerance); random pairs (neighbours, relative perturbations, unrelated); every pair in both orders at 8 (thorough 15) figure settings through 8 public routes, and every third pair through is_less_than_double / is_greater_than_double; non-trivial = every probe; distinct by (kind, figures, bit patterns)",
     "C16": "a generated translation unit of mock functions of arity 0..10 (6 per arity quick, 24 thorough) in 8 spellings (compact, spaced, wide, line-broken, tabs, box_double( x ), box_double (x), mixed), identifiers drawn from families that are prefixes/suffixes of one another, doubles at random positions; per function and position: a when-clause with matching / mismatching named argument / all other arguments changed, a capture, an output parameter; absent names (prefixes, suffixes, case variants) with and without will_return_double; plus the tokenizer alone on generated spellings and a malformed stream; non-trivial = every probe; distinct by probe text",
+    "C19": "scenarios containing a failing test (first / middle with results before and after / last behind a nested suite / alone / one test with 6000 results) under the text and xml reporters, forked and (two of them) CGREEN_NO_FORK; a reference run counts how often fork, pipe, fcntl, tmpfile, write and read on the result pipe and malloc inside send/receive_cgreen_message are reached; then one run per (site, k) for every k (first three, middle, last two when more than 12; thorough: every k up to 200), each on the plain build and - except the malloc sites - again under ASan+UBSan; observed: termination, exit status, sanitizer reports, for the xml reporter whether the report shows the failing test as passed, and for write faults what the runner credits the affected test (compared with the model); non-trivial = every injected run; distinct by (scenario, reporter, mode, site, k, build)",
     "C20": "container histories: sizes 0,1,2,3,step-1,step,step+1,2step-1..2step+1,3step,5step with removals at head/middle/tail, drain-and-reuse, ping-pong at the boundary, random histories, every history of <= 3 (5) ops over a 6-letter alphabet; suite registration orders around powers of two and 100; breadcrumb depths to 400; whole runs under ASan+UBSan with counts, nesting depth 1-101 and name lengths 1-5000 under every reporter; non-trivial = every case; distinct by case text",
 }
 
